@@ -147,6 +147,8 @@ def run(tier: str) -> int:
                 chk.violation("NoException(cli)", dict(doc=job[0], argv=job[2], exc=r["exc"]))
             elif r["o1"] != r["o2"]:
                 attribute(chk, [(None, dict(fam="R", doc=job[0], src=job[1], opts=dict(cli=job[2]), pass1=r["o1"], pass2=r["o2"]))])
+    from harness import inline
+    inline.judge(chk, tier, "C02")
     for id_ in list(metas)[:: max(1, len(metas) // 5)][:5]:
         chk.sample({k: (v if k != "pass2" else "(same)" if v == metas[id_]["pass1"] else v) for k, v in metas[id_].items()})
     chk.exhaustive = False
